@@ -189,7 +189,7 @@ Definition regions_from_bitmap (fixed msb0 : bool) (al : N) (bm : list N)
   let size := N.shiftr (end_pfn + 7) 3 in
   if N.of_nat (length bm) <? size then (ROob, orc)
   else let bm' := firstn (N.to_nat size) bm in
-       regions_loop (S (8 * length bm')) fixed msb0 al bm' start_pfn end_pfn fileoff elemsz rs0 orc.
+       regions_loop (8 * length bm' + 2) fixed msb0 al bm' start_pfn end_pfn fileoff elemsz rs0 orc.
 
 (** * set_bits / clear_bits (bitmap.c) *)
 
